@@ -79,7 +79,7 @@ type c05Read struct {
 func c05Scenario(r *vx.Rand) {
 	nKeys := 3 + r.Intn(3)
 	keys := keyPool[:nKeys]
-	w := hub.NewWorld(rec, hub.Options{Seed: r.U64(), Splits: pick(r, layoutsOf(1+r.Intn(3)))})
+	w := hub.NewWorld(rec, hub.Options{Full: lean, Seed: r.U64(), Splits: pick(r, layoutsOf(1+r.Intn(3)))})
 	defer w.Close()
 	for _, k := range keys {
 		w.TrackKey(k)
